@@ -15,7 +15,7 @@ Proof. unfold msgs. now rewrite flat_map_app. Qed.
 
 (** ** the invariant *)
 Definition thread_ok (t : wthread) : Prop :=
-  t_pc t <> WUWriting /\ t_forced t = false /\ forallb op_as_written (t_prog t) = true /\
+  (t_pc t <> WUWriting /\ t_pc t <> WLeaked) /\ t_forced t = false /\ forallb op_as_written (t_prog t) = true /\
   ((t_pc t = WHeld \/ t_pc t = WWriting) -> t_prog t <> []) /\
   msgs (t_done t) ++ wmsgs (t_prog t) = wmsgs (t_prog0 t).
 
@@ -61,16 +61,17 @@ Qed.
 
 Lemma emit_inv s i t o rest :
   wsinv s -> nth_error (ws_thr s) i = Some t -> t_pc t = WWriting -> t_prog t = o :: rest ->
+  (forall u, o <> WLook u) ->
   wsinv (put_emit s i (emitted t WWrote rest (frame_of o)) (frame_of o) (is_close_op o)).
 Proof.
-  intros I Ni Pc Pr. pose proof I as [Ih It Ic Icl Icb Ip].
+  intros I Ni Pc Pr NL. pose proof I as [Ih It Ic Icl Icb Ip].
   pose proof (Forall_nth _ _ _ _ It Ni) as (Tu & Tf & Tw & Tn & Tm).
   assert (holding t = true) as Ht by (unfold holding; now rewrite Pc).
   assert (is_close_op o = true -> ws_closed s = false) as Cf.
-  { destruct o as [k n l|c]; cbn; [discriminate|]. intros _. exact (Ic i t c rest Ni Pc Pr). }
+  { destruct o as [k n l|c|u]; cbn; try discriminate. intros _. exact (Ic i t c rest Ni Pc Pr). }
   assert (close_frames (put_emit s i (emitted t WWrote rest (frame_of o)) (frame_of o) (is_close_op o))
           = close_frames s + (if is_close_op o then 1 else 0)) as CF.
-  { unfold close_frames. cbn [put_emit ws_out]. rewrite count_snoc. cbn [snd]. destruct o; reflexivity. }
+  { unfold close_frames. cbn [put_emit ws_out]. rewrite count_snoc. cbn [snd]. destruct o as [k n l|c|u]; try reflexivity. exfalso. exact (NL u eq_refl). }
   constructor.
   - cbn [put_emit ws_thr]. pose proof (count_upd holding i (emitted t WWrote rest (frame_of o)) t _ Ni) as C.
     rewrite Ht in C. cbn [holding emitted t_pc] in C. lia.
@@ -109,12 +110,18 @@ Proof.
         repeat split; try discriminate; try assumption.
       - intros _ _. exact Fr.
       - discriminate. }
-    destruct o as [k n [|]|[|]]; cbn in Wo; try discriminate; exact K.
+    destruct o as [k n [|]|[|]|[|]]; cbn in Wo; try discriminate; exact K.
   - (* holds the lock *)
     assert (holding t = true) as Ht by (unfold holding; now rewrite Pc).
     destruct (t_prog t) as [|o rest] eqn:Pr; [discriminate|].
     assert (op_as_written o = true) as Wo by (cbn [forallb] in Tw; now apply andb_true_iff in Tw as [Tw _]).
-    destruct o as [k n l|c].
+    destruct o as [k n l|c|u].
+    3: { (* a look-up: unlock and go on *)
+      cbn in Wo. subst u. intros E; inversion E; subst; clear E. apply (put_inv s i t); try assumption; try reflexivity.
+      - unfold thread_ok; cbn [with_prog t_pc t_forced t_prog t_done t_prog0]. cbn [forallb] in Tw. apply andb_true_iff in Tw as [_ Tw].
+        repeat split; try discriminate; try assumption. intros [C|C]; discriminate.
+      - intros _ C. congruence.
+      - discriminate. }
     + intros E; inversion E; subst; clear E. apply (put_inv s i t); try assumption; try reflexivity.
       * unfold thread_ok; cbn [with_pc t_pc t_forced t_prog t_done t_prog0]. rewrite ?Pr.
         repeat split; try discriminate; try assumption.
@@ -132,13 +139,22 @@ Proof.
         -- intros _ C. congruence.
         -- intros; exact Cl.
   - (* inside the write *)
-    destruct (t_prog t) as [|o rest] eqn:Pr; [discriminate|]. intros E; inversion E; subst; clear E. now apply emit_inv.
+    destruct (t_prog t) as [|o rest] eqn:Pr; [discriminate|].
+    destruct o as [k n l|c|u].
+    3: { assert (holding t = true) as Ht by (unfold holding; now rewrite Pc).
+      intros E; inversion E; subst; clear E. apply (put_inv s i t); try assumption; try reflexivity.
+      - unfold thread_ok; cbn [with_prog t_pc t_forced t_prog t_done t_prog0]. cbn [forallb] in Tw. apply andb_true_iff in Tw as [_ Tw].
+        repeat split; try discriminate; try assumption. intros [C|C]; discriminate.
+      - intros _ C. congruence.
+      - discriminate. }
+    all: intros E; inversion E; subst; clear E; apply (emit_inv s i t _ rest I Ni Pc Pr); intros u; discriminate.
   - (* unlock *)
     intros E; inversion E; subst; clear E. apply (put_inv s i t); try assumption; try reflexivity.
     + unfold thread_ok; cbn [with_pc t_pc t_forced t_prog t_done t_prog0]. repeat split; try discriminate; try assumption. intros [C|C]; discriminate.
     + cbn. discriminate.
     + discriminate.
-  - contradiction.
+  - destruct Tu; contradiction.
+  - discriminate.
 Qed.
 
 Theorem wsrun_inv tr : forall s s', wsinv s -> wsrun s tr = Some s' -> wsinv s'.
@@ -153,7 +169,7 @@ Proof.
   unfold wsstep. destruct (nth_error (ws_thr s) i) as [t|] eqn:Ni; [|discriminate].
   assert (forall t', t_prog0 t' = t_prog0 t -> map t_prog0 (upd i t' (ws_thr s)) = map t_prog0 (ws_thr s)) as K
     by (intros t' E; exact (map_upd_same _ _ _ _ _ Ni E)).
-  destruct (t_pc t); destruct (t_prog t) as [|[k n [|]|[|]] rest]; try discriminate;
+  destruct (t_pc t); destruct (t_prog t) as [|[k n [|]|[|]|[|]] rest]; try discriminate;
     repeat match goal with |- context [if ?b then _ else _] => destruct b end; try discriminate;
     intros E; inversion E; subst; clear E; cbn [put put_emit ws_thr]; apply K; reflexivity.
 Qed.
@@ -176,7 +192,7 @@ Theorem ws_lock_safety_lemma progs tr s :
 Proof.
   intros W R. destruct (wsrun_inv tr _ _ (wsinv_init progs W) R) as [Ih It Ic Icl Icb Ip]. repeat split.
   - unfold writers_inside. etransitivity; [|exact Ih]. apply count_le.
-    eapply Forall_impl; [|exact It]. intros t (Tu & _) Wr. unfold writing, holding in *. destruct (t_pc t); try discriminate; try reflexivity. contradiction.
+    eapply Forall_impl; [|exact It]. intros t ((Tu & _) & _) Wr. unfold writing, holding in *. destruct (t_pc t); try discriminate; try reflexivity. contradiction.
   - rewrite Icl. destruct (ws_closed s); lia.
   - exact Icb.
 Qed.
@@ -204,14 +220,15 @@ Proof.
   - exists i. unfold wsstep. rewrite Ni, Z. cbn [Nat.eqb].
     destruct (Forall_nth _ _ _ _ It Ni) as (Tu & Tf & Tw & Tn & Tm).
     pose proof (count_zero_all _ _ _ _ Z Ni) as Hf. unfold holding in Hf. unfold unfinished in Un.
-    destruct (t_pc t); try discriminate; [|contradiction].
-    destruct (t_prog t) as [|[k n [|]|[|]] rest]; try discriminate; cbn in Tw; discriminate.
+    destruct (t_pc t); try discriminate; [|destruct Tu; contradiction].
+    destruct (t_prog t) as [|[k n [|]|[|]|[|]] rest]; try discriminate; cbn in Tw; discriminate.
   - destruct (count_pos_exists holding (ws_thr s)) as (j & tj & Nj & Hj); [lia|].
     exists j. unfold wsstep. rewrite Nj. destruct (Forall_nth _ _ _ _ It Nj) as (Tu & Tf & Tw & Tn & Tm).
     unfold holding in Hj. destruct (t_pc tj); try discriminate.
-    + destruct (t_prog tj) as [|[k n l|c] rest]; [exfalso; apply Tn; auto|discriminate|].
+    + destruct (t_prog tj) as [|[k n l|c|u] rest]; [exfalso; apply Tn; auto|discriminate| |discriminate].
       destruct (ws_closed s && (c || negb (t_forced tj))); discriminate.
-    + destruct (t_prog tj) as [|o rest]; [exfalso; apply Tn; auto|discriminate].
+    + destruct (t_prog tj) as [|[k n l|c|u] rest]; [exfalso; apply Tn; auto|discriminate|discriminate|discriminate].
+    + destruct Tu; contradiction.
 Qed.
 
 (** ** the two slips, refuted *)
@@ -243,7 +260,7 @@ Proof. split; [reflexivity|]. eexists. split; [vm_compute; reflexivity|repeat sp
 (** ** every schedule ends: a step costs one unit of a budget of four per operation *)
 Definition tweight (t : wthread) : nat :=
   let n := List.length (t_prog t) in
-  match t_pc t with WIdle => 4 * n | WHeld => 4 * n - 1 | WWriting | WUWriting => 4 * n - 2 | WWrote => 4 * n + 1 end.
+  match t_pc t with WIdle => 4 * n | WHeld => 4 * n - 1 | WWriting | WUWriting => 4 * n - 2 | WWrote | WLeaked => 4 * n + 1 end.
 Definition weight (s : wsstate) : nat := list_sum (map tweight (ws_thr s)).
 
 Lemma wsstep_weight s i s' : wsinv s -> wsstep s i = Some s' -> S (weight s') <= weight s.
@@ -255,7 +272,7 @@ Proof.
   { intros t' L. pose proof (sum_upd tweight i t' t _ Ni). lia. }
   unfold tweight in K.
   destruct (t_pc t) eqn:Pc; try contradiction;
-    destruct (t_prog t) as [|[k n [|]|[|]] rest] eqn:Pr; try discriminate; cbn in Tw; try discriminate;
+    destruct (t_prog t) as [|[k n [|]|[|]|[|]] rest] eqn:Pr; try discriminate; cbn in Tw; try discriminate;
     repeat match goal with |- context [if ?b then _ else _] => destruct b end; try discriminate;
     intros E; inversion E; subst; clear E; cbn [put put_emit ws_thr]; apply K;
     cbn [with_pc with_prog emitted t_pc t_prog List.length]; rewrite ?Pr; cbn [List.length]; lia.
@@ -274,3 +291,11 @@ Proof.
   - destruct (wsstep s0 i) as [s1|] eqn:E; [|discriminate].
     pose proof (wsstep_weight _ _ _ I E). specialize (IH _ R (wsstep_inv _ _ _ I E)). cbn [List.length]. lia.
 Qed.
+
+(** a path that returns without unlocking (a stop for an id nothing runs under): every other goroutine of the
+    connection is blocked for good - the next result, a tick, the close *)
+Theorem ws_lock_left_locked_witness :
+  exists s, wsrun (wsinit [[WLook false; WLook true]; [WWrite "next" 1 true]; [WClose true]]) [0; 0] = Some s /\
+            wsstep s 0 = None /\ wsstep s 1 = None /\ wsstep s 2 = None /\
+            existsb unfinished (ws_thr s) = true.
+Proof. eexists. split; [vm_compute; reflexivity|repeat split; reflexivity]. Qed.
